@@ -235,6 +235,12 @@ func runOne(c cfg, devs []vrt.Dev, labels bool) *explore.Exec {
 				if expect <= c.H0 {
 					where = "stored-rounds"
 				}
+				// the full in-memory ring evicts its oldest round on every append: rounds that can have been evicted while
+				// the stream was being served (all below final head - capacity + 1) are not "stored beacons" any more
+				if c.Backend == "memdb" && H >= ringCapacity && p.Round-1 < H-ringCapacity+1 {
+					expect = p.Round + 1
+					continue
+				}
 				add("gap/"+where, fmt.Sprintf("round %d missing (got %d)", expect, p.Round))
 			}
 			expect = p.Round + 1
